@@ -111,7 +111,7 @@ def showErr : Err → String
   | .notFound => "not-found" | .unaryMethod => "unary" | .missingState => "missing-state"
   | .malformed => "malformed" | .version g w => s!"version:{g.toNat}:{w.toNat}"
   | .signature => "signature" | .expired => "expired" | .wrongMethod => "wrong-method"
-  | .missingCall => "missing-call" | .sessionLost => "session-lost"
+  | .missingCall => "missing-call" | .sessionLost => "session-lost" | .badState => "bad-state"
 
 def showStatus (status : Nat) (rpcErr : Bool) : String := s!"{status}" ++ (if rpcErr then "e" else "")
 
@@ -190,6 +190,7 @@ structure InitEnv where
   streamId : Bytes
   schema : Bytes
   created : Int
+  callCreated : Int
   curTok : Bytes
   callTok : Bytes
   deriving Repr
@@ -219,8 +220,8 @@ def applyInit (w : World) (iname : String) (who : Ident) (method : Bytes) (limit
   match w.inst? iname with
   | none => (w, "bad-op")
   | some inst =>
-    let e : InitEnv := env.getD ⟨[], [], [], 0, [], []⟩
-    let o := initStream w.sealed inst who method limit sess e.callId e.streamId e.schema e.created
+    let e : InitEnv := env.getD ⟨[], [], [], 0, 0, [], []⟩
+    let o := initStream w.sealed inst who method limit sess e.callId e.streamId e.schema e.created e.callCreated
     let line := s!"{showStatus o.status o.rpcErr} {match o.err with | none => (if o.mint.isSome then "ok" else "finished") | some er => showDecision (some er)}"
     match o.mint with
     | none => (w, line)
@@ -304,9 +305,10 @@ def parseInst (name : String) (ws : List String) : Option Cmd :=
   | _, _, _, _, _, _, _, _ => none
 
 def parseInitEnv (ws : List String) : Option InitEnv :=
-  match fBytes ws "callid", fBytes ws "streamid", fBytes ws "schema", fInt ws "created", fBytes ws "cur", fBytes ws "call" with
-  | some a, some b, some c, some d, some e, some f => some ⟨a, b, c, d, e, f⟩
-  | _, _, _, _, _, _ => none
+  match fBytes ws "callid", fBytes ws "streamid", fBytes ws "schema", fInt ws "created", fInt ws "kcreated",
+        fBytes ws "cur", fBytes ws "call" with
+  | some a, some b, some c, some d, some k, some e, some f => some ⟨a, b, c, d, k, e, f⟩
+  | _, _, _, _, _, _, _ => none
 
 def parseInit (iname ident method : String) (ws : List String) : Option Cmd :=
   match parseIdent ident, fNat ws "limit", fOptBytes ws "sess", fInt ws "now" with
